@@ -176,12 +176,157 @@ def handleGlob (a : Args) : String :=
   let sp := (splitList "," (a.get "s")).map fun s => if globSpec p (dec s) then "1" else "0"
   s!"M={enc re} m={String.join ms} S={String.join sp}"
 
+
+/-! ### layers -/
+
+def parseLArchOp (s : String) : Option LArchOp :=
+  match s.splitOn ":" with
+  | ["with"] => some .withLayer
+  | ["layer", n] => some (.layer (dec n))
+  | ["cms", x] => some (.containingModules [dec x])          -- a str argument
+  | ["cml", xs] => some (.containingModules (strList xs))    -- a list argument
+  | ["cml"] => some (.containingModules [])
+  | ["rx", r] => some (.matching (dec r))
+  | _ => none
+
+def renderFilter (f : Filter) : String :=
+  match f with
+  | .name x => "N:" ++ enc x
+  | .parent x => "P:" ++ enc x
+  | .regex x => "R:" ++ enc x
+
+def renderLArch (a : LArch) : String :=
+  joinStr ";" (a.map fun l => enc l.1 ++ "~" ++ joinStr "," (l.2.map renderFilter))
+
+def toLCall : LArchOp → PtaSpec.LCall
+  | .withLayer => .withLayer
+  | .layer n => .layer n
+  | .containingModules ms => .modules ms
+  | .matching r => .regex r
+
+def renderIds (ls : List (Str × List Str)) : String :=
+  joinStr ";" (ls.map fun l => enc l.1 ++ "~" ++ joinStr "," (l.2.map enc))
+
+def handleLArch (a : Args) : String :=
+  let ops := (splitList ";" (a.get "ops")).filterMap parseLArchOp
+  let sAns := match PtaSpec.classifyLArch (ops.map toLCall) with
+    | .accepted t => "S=OK:" ++ renderIds (t.closed ++ (match t.opened with | some n => [(n, [])] | none => []))
+    | .rejectedAt i => s!"S=REJ:{i}"
+    | .unspecified => "S=NA"
+  match runLArch ops with
+  | .error (k, i) => s!"M=ERR:{errName k} I={i} {sAns}"
+  | .ok arch => s!"M=OK:{renderLArch arch} I={ops.length} {sAns} IDS={renderIds (arch.map fun l => (l.1, l.2.map (·.id)))}"
+
+/-- `arch=<layer>~N:x,N:y;<layer>~R:pat` -/
+def parseLArch (v : String) : LArch :=
+  (splitList ";" v).filterMap fun rec =>
+    match rec.splitOn "~" with
+    | [n, fs] => some (dec n, filterList fs)
+    | [n] => some (dec n, [])
+    | _ => none
+
+def parseLayerRuleOp (arch : LArch) (s : String) : Option LayerRuleOp :=
+  match s.splitOn ":" with
+  | ["based"] => some (.basedOn arch)
+  | ["lt"] => some .layersThat
+  | ["named", l] => some (.areNamed [dec l] false)
+  | ["namedl", ls] => some (.areNamed (strList ls) true)
+  | ["namedl"] => some (.areNamed [] true)
+  | ["should"] => some .should
+  | ["only"] => some .shouldOnly
+  | ["not"] => some .shouldNot
+  | ["acc"] => some .access
+  | ["accby"] => some .beAccessedBy
+  | ["accx"] => some .accessExcept
+  | ["accbyx"] => some .beAccessedByExcept
+  | ["accany"] => some .accessAny
+  | ["accbyany"] => some .beAccessedByAny
+  | _ => none
+
+def tagOpt (t : Option Str) : String := match t with | some l => "L" ++ enc l | none => "N"
+
+def renderLItem : LItem → String
+  | .imp u v by_ tu tv => s!"limp|{enc u}|{enc v}|{if by_ then "b" else "i"}|{tagOpt tu}|{tagOpt tv}"
+  | .miss any s os by_ =>
+    let lname (o : Option Str) : String := match o with | some l => enc l | none => "None"
+    s!"lmiss|{if any then "1" else "0"}|{lname s}|{joinStr "," (canonSet (os.map lname))}|{if by_ then "b" else "i"}"
+
+def renderLVerdict : LVerdict → String
+  | .pass => "PASS"
+  | .fail items => "FAIL:" ++ joinStr ";" (canonSet (items.map renderLItem))
+  | .err k => "ERR:" ++ errName k
+
+/-- `lres=<layer>~m1,m2;…` resolved layer contents for the specification -/
+def parseLayers (v : String) : PtaSpec.Layers :=
+  (splitList ";" v).filterMap fun rec =>
+    match rec.splitOn "~" with
+    | [n, ms] => some (dec n, (strList ms).map toName)
+    | [n] => some (dec n, [])
+    | _ => none
+
+def layerSpecAnswer (a : Args) : String :=
+  match a.get? "lv" with
+  | none => "S=NA D=-"
+  | some lv =>
+    let verb := if lv == "should" then PtaSpec.Verb.should else if lv == "only" then .shouldOnly else .shouldNot
+    let r : PtaSpec.LRuleSpec :=
+      { verb := verb, importDir := a.get "ld" == "i", exc := a.get "lx" == "1", subject := dec (a.get "lsub"),
+        objects := strList (a.get "lobj"), anything := a.get "la" == "1" }
+    let arch := archOf a
+    let ls := parseLayers (a.get "lres")
+    let dom := s!"{if arch.wf then "w" else "-"}{if PtaSpec.layerDomain arch ls r then "d" else "-"}"
+    s!"S={if PtaSpec.layerVerdict arch ls r then "PASS" else "FAIL"} D={dom}"
+
+def toLRCall (arch : LArch) : LayerRuleOp → PtaSpec.LRCall
+  | .basedOn _ => .basedOn
+  | .layersThat => .layersThat
+  | .areNamed ls isList =>
+    .named ((ls.flatMap fun l => match arch.get l with | .ok fs => fs | .error _ => []).length) isList
+      (ls.all arch.hasLayer)
+  | .should => .should
+  | .shouldOnly => .shouldOnly
+  | .shouldNot => .shouldNot
+  | .access => .accessType false
+  | .beAccessedBy => .accessType false
+  | .accessExcept => .accessType true
+  | .beAccessedByExcept => .accessType true
+  | .accessAny => .anyLayer
+  | .beAccessedByAny => .anyLayer
+
+def renderLRClass : PtaSpec.LRClass → String
+  | .rejectedAt i => s!"rejectedAt{i}"
+  | .lookupAt i => s!"lookupAt{i}"
+  | .final c => renderClass c
+  | .notStarted => "notStarted"
+
+def handleLayer (a : Args) : String :=
+  let g := graphOf a
+  let arch := parseLArch (a.get "arch")
+  let ops := (splitList ";" (a.get "lops")).filterMap (parseLayerRuleOp arch)
+  let table := parseMatchTable (a.get "mtab")
+  let (v, i) := runLayerRuleOps (tableMatches table) ops g
+  s!"M={renderLVerdict v} I={i} {layerSpecAnswer a} C={renderLRClass (PtaSpec.classifyLayerRule (ops.map (toLRCall arch)))}"
+
+def handleLayerOf (a : Args) : String :=
+  let m : LayerMap := (splitList ";" (a.get "map")).filterMap fun rec =>
+    match rec.splitOn "~" with
+    | [n, ms] => some (dec n, strList ms)
+    | [n] => some (dec n, [])
+    | _ => none
+  joinStr "," ((strList (a.get "names")).map fun n =>
+    match m.layerOf n with
+    | .ok t => tagOpt t
+    | .error k => "ERR:" ++ errName k)
+
 def handle (line : String) : String :=
   let (op, a) := parseArgs line
   if op == "rule" then handleRule a
   else if op == "query" then handleQuery a
   else if op == "graph" then handleGraph a
   else if op == "glob" then handleGlob a
+  else if op == "larch" then handleLArch a
+  else if op == "layer" then handleLayer a
+  else if op == "layerof" then "M=" ++ handleLayerOf a
   else "BAD op"
 
 end Driver
